@@ -575,7 +575,15 @@ class Builtins:
         if name == "pop":
             ln = z3.Length(s.term)
             if args:
-                raise Unsupported("list.pop(i)")
+                # pop(i) with Python index meaning: IndexError outside -len..len-1
+                i0 = it.coerce(it.force(args[0], fr), TInt).term
+                if not it.branch(z3.And(i0 >= -ln, i0 < ln)):
+                    it.raise_exc("IndexError")
+                i = z3.If(i0 >= 0, i0, i0 + ln)
+                v = SV(t.elem, s.term[i])
+                new = seq_concat(z3.SubSeq(s.term, 0, i), z3.SubSeq(s.term, i + 1, ln - i - 1))
+                self.writeback(it, node, SV(t, new), fr)
+                return it.assume_wf(v)
             if not it.branch(ln > 0):
                 it.raise_exc("IndexError")
             v = SV(t.elem, s.term[ln - 1])
